@@ -3,6 +3,7 @@ module tunnox-core/verif
 go 1.24.4
 
 require (
+	github.com/alicebob/miniredis/v2 v2.35.0
 	github.com/anishathalye/porcupine v1.3.0
 	github.com/sirupsen/logrus v1.9.3
 	pgregory.net/rapid v1.3.0
@@ -30,6 +31,7 @@ require (
 	github.com/redis/go-redis/v9 v9.11.0 // indirect
 	github.com/tjfoc/gmsm v1.4.1 // indirect
 	github.com/xtaci/kcp-go/v5 v5.6.59 // indirect
+	github.com/yuin/gopher-lua v1.1.1 // indirect
 	golang.org/x/crypto v0.47.0 // indirect
 	golang.org/x/net v0.49.0 // indirect
 	golang.org/x/sync v0.19.0 // indirect
